@@ -39,7 +39,13 @@ Clause(r) == Pick(<<
   <<"result_differs_with_running_recovery_history", r.inprog_recovered /\ (r.res.kind # r.ref.kind \/ r.res.detail # r.ref.detail)>>,
   <<"state_store_differs_with_running_recovery_history", r.inprog_recovered /\ r.res.store # r.ref.store>>,
   <<"result_differs", ~r.pending_retry /\ ~r.inprog_recovered /\ (r.res.kind # r.ref.kind \/ r.res.detail # r.ref.detail)>>,
-  <<"state_store_differs", ~r.pending_retry /\ ~r.inprog_recovered /\ r.res.store # r.ref.store>> >>)
+  <<"state_store_differs", ~r.pending_retry /\ ~r.inprog_recovered /\ r.res.store # r.ref.store>>,
+  \* a second pause on the resumed run (only judged where the first one was transparent): the run that was merely
+  \* serialised again goes on as if it had not been (ckpt), and what was serialised resumes to the same end (res2)
+  <<"second_snapshot_failed", r.two /\ r.snap2_err # "">>,
+  <<"serializing_the_resumed_run_changes_it", r.two /\ (r.ckpt.kind # r.res.kind \/ r.ckpt.detail # r.res.detail \/ r.ckpt.store # r.res.store)>>,
+  <<"second_resume_differs", r.two /\ ~r.pending_retry2 /\ ~r.inprog_recovered2
+                             /\ (r.res2.kind # r.res.kind \/ r.res2.detail # r.res.detail \/ r.res2.store # r.res.store)>> >>)
 
 Init == tid \in 1..Len(T.traces) /\ l = 1 /\ verdict = "ok"
 Step == /\ verdict = "ok" /\ l <= Len(Tr.log)
